@@ -15,9 +15,9 @@ VARIABLES fam, p
 vars == <<fam, p>>
 AesKeys  == {16, 24, 32}
 MsgLens  == IF Deep THEN {0, 1, 15, 16, 17, 31, 32, 33, 47, 48, 49, 64, 80} ELSE {0, 1, 15, 16, 17, 31, 32, 33, 48}
-CcmMsg   == IF Deep THEN {0, 1, 16, 17, 33} ELSE {0, 1, 17}
+CcmMsg   == IF Deep THEN {0, 1, 15, 16, 17, 33} ELSE {0, 1, 17}
 CcmNonce == IF Deep THEN 7..13 ELSE {7, 12, 13}
-CcmAad   == IF Deep THEN {"default", "empty", "a1", "a14", "a20"} ELSE {"default", "a14", "a20"}
+CcmAad   == IF Deep THEN {"default", "empty", "a1", "a14", "a20", "a40"} ELSE {"default", "a14", "a20"}
 CcmTagE  == IF Deep THEN {0, 4, 6, 8, 10, 12, 14, 16} ELSE {0, 4, 8, 16}               \* 0 = left to the default (16)
 CcmDv    == IF Deep THEN {"same", "tagdefault", "tagother", "aadother", "aaddrop", "flipct", "fliptag", "truncated"}
                     ELSE {"same", "tagdefault", "aadother", "flipct", "fliptag"}
